@@ -122,9 +122,13 @@ def gen_window(rng, g, kinds=None):
     return None, None, 'none'
 
 
-def gen_prices(rng, T, keys, kind=None):
+def gen_prices(rng, T, keys, kind=None, cap_levels=None):
     out = {}
     for k in keys:
+        if cap_levels and k in cap_levels:
+            lo_, hi_ = cap_levels[k]
+            out[k] = [float(x) for x in np.round(rng.uniform(lo_ + 0.25 * (hi_ - lo_), hi_, T), 3)]       # an availability series between min and max capacity
+            continue
         kd = kind or pick(rng, ['normal', 'normal', 'sin', 'neg', 'big', 'steps'])
         if kd == 'normal':
             v = rng.normal(20, 8, T)
@@ -188,7 +192,7 @@ def gen_take(rng, g, lo, hi, f):
     return None, None
 
 
-def gen_contract(rng, g, name, node, f, price_key, window=True, take=True, simple=None, spread=None, dict_caps=True):
+def gen_contract(rng, g, name, node, f, price_key, window=True, take=True, simple=None, spread=None, dict_caps=True, cap_key=None):
     lo, hi = sorted([pick(rng, [-3., -1., 0., 0., 2., 4.]), pick(rng, [-3., -1., 0., 0., 2., 4.])])
     a = {'type': 'Contract', 'name': name, 'nodes': [node], 'price': price_key, 'min_cap': r2(lo * f), 'max_cap': r2(hi * f),
          'extra_costs': pick(rng, [0., 0., 0.3, 1.]) if spread is None else spread, 'wacc': pick(rng, [0., 0., 0.2])}
@@ -202,6 +206,11 @@ def gen_contract(rng, g, name, node, f, price_key, window=True, take=True, simpl
         key, tk = gen_take(rng, g, lo * f, hi * f, f)
         if key:
             a[key] = tk
+    if cap_key is not None and hi > 0:
+        # capacity given as a key of the price data (e.g. an availability series): bounds then depend on the data set
+        a['max_cap'] = cap_key
+        a['_cap_level'] = [r2(max(lo, 0.) * f), r2(hi * f)]
+        return a
     if dict_caps and rng.random() < 0.2 and hi > 0:
         # time-varying capacity as interval dictionary covering the horizon generously
         pts = grid_points(g)
@@ -450,8 +459,9 @@ ALL_KINDS = ('contract', 'transport', 'storage', 'multi', 'orderbook', 'plant', 
              'storage_mip', 'storage_blocks')
 
 
-def gen_mixed_portfolio(rng, kinds=ALL_KINDS, g=None, n_assets=(2, 6), n_nodes=(1, 3), grid_kw=None, window=True, mip_ok=True, campaign=True):
+def gen_mixed_portfolio(rng, kinds=ALL_KINDS, g=None, n_assets=(2, 6), n_nodes=(1, 3), grid_kw=None, window=True, mip_ok=True, campaign=True, data_caps=False):
     grid_kw = dict(grid_kw or {})
+    cap_levels = {}
     need_sub = any(k in kinds for k in ('coarse', 'periodic'))
     g = g or gen_grid(rng, **grid_kw)
     f = UNIT_F[g['unit']]
@@ -467,7 +477,10 @@ def gen_mixed_portfolio(rng, kinds=ALL_KINDS, g=None, n_assets=(2, 6), n_nodes=(
         ty = pick(rng, kinds)
         key = 'q%d' % j; pk.append(key)
         if ty == 'contract':
-            assets.append(gen_contract(rng, g, 'c%d' % j, pick(rng, nodes), f, key, window=window))
+            ck_ = ('cap%d' % j) if (data_caps and rng.random() < 0.3) else None
+            assets.append(gen_contract(rng, g, 'c%d' % j, pick(rng, nodes), f, key, window=window, cap_key=ck_))
+            if assets[-1].get('_cap_level'):
+                cap_levels[ck_] = assets[-1]['_cap_level']; pk.append(ck_)
         elif ty == 'transport' and nn > 1:
             n1, n2 = [nodes[int(i)] for i in rng.permutation(nn)[:2]]
             assets.append(gen_transport(rng, g, 't%d' % j, n1, n2, f, cost_key=key, window=window))
@@ -580,7 +593,10 @@ def gen_mixed_portfolio(rng, kinds=ALL_KINDS, g=None, n_assets=(2, 6), n_nodes=(
         obs = [a for a in assets if a['type'] == 'OrderBook']
         if obs:
             assets = [a for a in assets if a is not obs[-1]] + [obs[-1]]
-    return {'grid': g, 'assets': assets, 'prices': gen_prices(rng, T, sorted(set(pk)))}
+    spec = {'grid': g, 'assets': assets, 'prices': gen_prices(rng, T, sorted(set(pk)), cap_levels=cap_levels)}
+    if cap_levels:
+        spec['_cap_levels'] = cap_levels
+    return spec
 
 
 def asset_types(spec):
